@@ -380,6 +380,7 @@ def drive(sub, variant, ctx, n_examples, seed_int, shrink_budget_s):
             path = save_replay(ctx.prop, sub.name, case, v, variant)
             ctx.failures.append(dict(sub=sub.name, variant=variant, bucket=bucket_of(sub.name, v), kind=v.kind, message=v.msg[:600], replay=path, case=case))
             excluded.add(bucket_of(sub.name, v))
+            ctx.found_one()
         except HarnessError:
             raise
         except BaseException as e:  # Flaky etc.
